@@ -390,10 +390,18 @@ def shard_structured(arg):
                             1e-6 * ((i * 3) % 7 - 3)] for i in range(40)]
     rng_pts["helix2000"] = [[np.cos(0.01 * i) * (1 + i / 500.), np.sin(
         0.01 * i) * (1 + i / 500.), 0.002 * i] for i in range(2000)]
+    # sizes around and beyond 1024 / 2048 (chunked or blocked computations),
+    # one of them with a long stand-still at the end
+    for big in (1025, 1500, 2049):
+        rng_pts["helix%d" % big] = rng_pts["helix2000"][:big] if big <= 2000 \
+            else rng_pts["helix2000"] + [[3.0 + 0.001 * i, 0.5, 4.0]
+                                         for i in range(big - 2000)]
+    rng_pts["helix1700still"] = rng_pts["helix2000"][:600] + [
+        rng_pts["helix2000"][600]] * 1100
     xs = rng_pts[which]
     n = len(xs)
     for ws in (False, True):
-        for r in range(0, 24, 1 if thorough or n < 1000 else 6):
+        for r in range(0, 24, 1 if n < 1000 else (6 if thorough else 12)):
             for s in range(len(SCALE_T)):
                 for kind in ("exact", "mirror", "noise"):
                     c = {"kind": kind, "rot": r, "st": s, "x": xs,
@@ -408,16 +416,20 @@ def shard_structured(arg):
                         small = dict(c)
                         acc.violation("structured", "; ".join(msgs[:2]), small,
                                       _cls(c, msgs))
-    # shape mismatch must be refused
+    # shape mismatch must be refused (either set the longer one)
     x = np.array(xs, dtype=float).T
     for ws in (False, True):
-        res = _umeyama(x, x[:, :-1], ws)
-        acc.count("evaluations")
-        acc.count("transitions")
-        if res[0] != "refused":
-            acc.violation("structured", "sets of unequal size not refused",
-                          {"kind": "shape", "x": xs, "with_scale": ws,
-                           "which": which}, {"kind": "shape"})
+        for a, b, lab in ((x, x[:, :-1], "second shorter"),
+                          (x[:, :-1], x, "second longer")):
+            res = _umeyama(a, b, ws)
+            acc.count("evaluations")
+            acc.count("transitions")
+            if res[0] != "refused":
+                acc.violation("structured", "sets of unequal size (%s) not "
+                              "refused: %s" % (lab, res[0]),
+                              {"kind": "shape", "x": xs, "with_scale": ws,
+                               "which": which, "longer": lab},
+                              {"kind": "shape"})
     return acc
 
 
@@ -436,20 +448,22 @@ def run(ctx):
     acc = pmap_acc(ctx, __name__, "shard_sets", jobs)
     acc.merge(pmap_acc(ctx, __name__, "shard_degenerate",
                        [[1], [2], [3]] + ([[4]] if True else [])))
-    structs = ["lattice5", "planar10", "nearline"] + (["helix2000"]
-                                                      if thorough else [])
+    structs = ["lattice5", "planar10", "nearline", "helix1025", "helix1500",
+               "helix1700still"] + (["helix2000", "helix2049"]
+                                    if thorough else [])
     acc.merge(pmap_acc(ctx, __name__, "shard_structured",
                        [(w, thorough) for w in structs]))
     acc.counters["states"] = acc.counters["evaluations"]
     acc.rule = (
         "x = every 3- and 4-point subset of {-1,0,1}^3 (2925 + 17550), every "
         "5-subset of {0,1}^3, structured sets (5^3 lattice, 10x10 planar, "
-        "nearly collinear%s); y = g(x) for g in Rot24 x {scale,translation} "
+        "nearly collinear, helices of 1025 / 1500 / 1700 (long stand-still) "
+        "points%s); y = g(x) for g in Rot24 x {scale,translation} "
         "alphabet, mirror images, one-point noise, unrelated set; with and "
         "without scale; + all on-axis / coincident tuples over %s^n, n<=4. "
         "non-trivial = optimal orthogonal map is a reflection (S-branch "
         "taken) or noisy/unrelated data" %
-        (", 2000-point helix" if thorough else "", list(AXVALS)))
+        (", 2000 / 2049 points" if thorough else "", list(AXVALS)))
     acc.bounds = {"points_per_set": "3,4,5 exhaustive; 40..2000 structured",
                   "exact_variants_per_set_3pt": 24 if thorough else 8}
     acc.assumptions = [
@@ -465,6 +479,8 @@ def run(ctx):
 def replay(part, case):
     if case.get("kind") == "shape":
         x = np.array(case["x"], dtype=float).T
-        res = _umeyama(x, x[:, :-1], case["with_scale"])
+        a, b = (x, x[:, :-1]) if case.get("longer") != "second longer" \
+            else (x[:, :-1], x)
+        res = _umeyama(a, b, case["with_scale"])
         return [] if res[0] == "refused" else ["unequal sizes not refused"]
     return run_case(case)
